@@ -20,7 +20,12 @@ RULE = (
     "== != <> equals not_equals; (iv) container scenarios: for a container "
     "built from xs in every sampled insertion order and any y equal to some "
     "x: membership, map lookup, removal, set and list difference, container "
-    "== and the element count are those of the model. Non-trivial = a pair of "
+    "== and the element count are those of the model; (v) two containers "
+    "built from the same literal by the same generated mutation sequence "
+    "(index / member assignment, put, remove, append, insert_at, delete_at, "
+    "nested targets), one of them hashed, rendered and compared between the "
+    "steps, are equal and interchangeable as set elements and map keys. "
+    "Non-trivial = a pair of "
     "model-equal values with different representation, or nesting depth >= 2, "
     "or a non-identity permutation."
 )
@@ -187,6 +192,49 @@ def scenario(xs, y, perm):
     return None
 
 
+def mutated(case):
+    """The same generated mutation sequence builds two containers from two
+    evaluations of the same literal; one of them is hashed / rendered /
+    compared between the steps.  They are structurally equal at the end, so
+    they must be equal and interchangeable as elements and keys."""
+    body = []
+    for what, text in case["steps"]:
+        if what == "obs":
+            body.append(f"if observe then do {text} catch all NULL end")
+        else:
+            body.append(f"do {text} catch all NULL end")
+    src = (f"def build = fn(x, observe) do {'; '.join(body)}; x end; "
+           f"def m = build({case['base']}, TRUE); "
+           f"def o = build({case['base']}, FALSE); "
+           f"[string([m]) == string([o]), m == o, o == m, o in <<m>>, "
+           f"m in <<o>>, length(<<m, o>>), <<m>> == <<o>>, "
+           f"<<<identity(m) => 1>>>[o], "
+           f"length(remove(<<<identity(m) => 1>>>, o)), "
+           f"length(remove(<<m>>, o)), m in [o], "
+           f"<<<identity(o) => 1>>> == <<<identity(m) => 1>>>, "
+           f"length(<<[m], [o]>>), length(<<m, 0>> - <<o>>)]")
+    names = ["", "m == o", "o == m", "o in <<m>>", "m in <<o>>",
+             "length(<<m, o>>)", "<<m>> == <<o>>", "map keyed by m read by o",
+             "remove from map keyed by m using o", "remove from <<m>> using o",
+             "m in [o]", "maps keyed by o and m equal", "length(<<[m], [o]>>)",
+             "length(<<m, 0>> - <<o>>)"]
+    want = [True, True, True, True, True, 1, True, 1, 0, 0, True, True, 1, 1]
+    out = cklrun.run(src, budget=20)
+    if out[0] != "value":
+        if case["container"] == "object":
+            return None
+        return Finding(f"C06|mutated|{out[0]}", f"{src} -> {cklrun.short(out)}")
+    got = cklrun.to_model(out[1])
+    if got[0] is not True:
+        return None      # renderings differ: C08's subject, not equality
+    for g, w, nm in zip(got[1:], want[1:], names[1:]):
+        if not (type(g) is type(w) and g == w):
+            return Finding(f"C06|mutated|{case['container']}|{nm}",
+                           f"{src} -> {nm} is {g!r}, expected {w!r} (m and "
+                           f"o were built by the same steps)")
+    return None
+
+
 def _strip(e):
     import re
     return re.sub(r"<<.*>>", "<<..>>", e)[:40]
@@ -194,13 +242,15 @@ def _strip(e):
 
 def prop(case):
     k = case["kind"]
-    vals = [dec(x) for x in case["values"]]
+    vals = [dec(x) for x in case.get("values", [])]
     if k == "api":
         return api_triple(vals)
     if k == "pair":
         return interp_pair(vals[0], vals[1])
     if k == "scenario":
         return scenario(vals[:-1], vals[-1], case["perm"])
+    if k == "mutated":
+        return mutated(case["case"])
     raise ValueError(k)
 
 
@@ -295,6 +345,23 @@ def part_scenarios(part, n):
     part.hyp(tapes(900), body, n)
 
 
+def part_mutated(part, n):
+    from vf.checks import c08
+
+    def body(tape):
+        ch = TapeChooser(tape)
+        case = c08.gen_mutation_case(ch)
+        part.count()
+        if c08.mutation_nontrivial(case):
+            part.nontriv(repr(case))
+        part.cls("mutated:" + case["container"],
+                 repr(case) if len(repr(case)) < 300 else None)
+        f = mutated(case)
+        if f:
+            return f, {"kind": "mutated", "case": case}
+    part.hyp(tapes(600), body, n)
+
+
 def part_all_orders(part, n):
     """All insertion orders of <= 4 generated elements (5 in thorough)."""
     maxlen = 5 if part.tier == "thorough" else 4
@@ -325,9 +392,11 @@ def parts(tier, seed):
         ps += [(f"pairs-{i}", part_pairs, {"n": 1200}) for i in range(4)]
         ps += [(f"scen-{i}", part_scenarios, {"n": 700}) for i in range(4)]
         ps += [(f"orders-{i}", part_all_orders, {"n": 40}) for i in range(3)]
+        ps += [(f"mutated-{i}", part_mutated, {"n": 1500}) for i in range(3)]
     else:
         ps = [(f"api-{i}", part_api, {"n": 120000}) for i in range(5)]
         ps += [(f"pairs-{i}", part_pairs, {"n": 30000}) for i in range(4)]
         ps += [(f"scen-{i}", part_scenarios, {"n": 20000}) for i in range(4)]
         ps += [(f"orders-{i}", part_all_orders, {"n": 400}) for i in range(3)]
+        ps += [(f"mutated-{i}", part_mutated, {"n": 30000}) for i in range(4)]
     return ps
